@@ -21,6 +21,14 @@ type testCoin struct {
 	index uint32
 	value int64
 	confs int64
+	vaCap int64 // > 0: the coin reports min(value*confs, vaCap) as its value-age (age is capped)
+}
+
+func (c *testCoin) va() int64 {
+	if v := c.value * c.confs; c.vaCap <= 0 || v < c.vaCap {
+		return v
+	}
+	return c.vaCap
 }
 
 func (c *testCoin) Hash() *chainhash.Hash { return &c.hash }
@@ -28,17 +36,20 @@ func (c *testCoin) Index() uint32         { return c.index }
 func (c *testCoin) Value() bchutil.Amount { return bchutil.Amount(c.value) }
 func (c *testCoin) PkScript() []byte      { return nil }
 func (c *testCoin) NumConfs() int64       { return c.confs }
-func (c *testCoin) ValueAge() int64       { return c.value * c.confs }
+func (c *testCoin) ValueAge() int64       { return c.va() }
 
 type coinSpec struct {
-	V int64 `json:"v"`
-	C int64 `json:"c"`
+	V   int64 `json:"v"`
+	C   int64 `json:"c"`
+	Cap int64 `json:"va_cap,omitempty"` // value-age as the coin reports it is capped at this (0: value x confirmations)
 }
+
+func (s coinSpec) va() int64 { return (&testCoin{value: s.V, confs: s.C, vaCap: s.Cap}).va() }
 
 func mkCoins(specs []coinSpec) []coinset.Coin {
 	out := make([]coinset.Coin, len(specs))
 	for i, s := range specs {
-		tc := &testCoin{id: i, index: uint32(i % 3), value: s.V, confs: s.C}
+		tc := &testCoin{id: i, index: uint32(i % 3), value: s.V, confs: s.C, vaCap: s.Cap}
 		tc.hash[0] = byte(i)
 		tc.hash[31] = byte(i * 7)
 		out[i] = tc
@@ -97,7 +108,7 @@ func evalC19Sel(c c19Sel, o *Obs) error {
 		sort.SliceStable(order, func(a, b int) bool { return keyOf(order[a]) > keyOf(order[b]) })
 	case "maxvalueage":
 		order = seqInts(len(coins))
-		keyOf = func(i int) int64 { return c.Coins[i].V * c.Coins[i].C }
+		keyOf = func(i int) int64 { return c.Coins[i].va() }
 		sort.SliceStable(order, func(a, b int) bool { return keyOf(order[a]) > keyOf(order[b]) })
 	}
 	if err != nil {
@@ -161,7 +172,7 @@ func evalC19Sel(c c19Sel, o *Obs) error {
 		seen[tc.id] = true
 		ids = append(ids, tc.id)
 		total += tc.value
-		totalVA += tc.value * tc.confs
+		totalVA += tc.va()
 	}
 	if len(got) > c.MaxInputs {
 		return fmt.Errorf("%s: %d coins selected %v, more than MaxInputs", desc, len(got), ids)
@@ -211,12 +222,21 @@ func genC19Sel(t *rapid.T) c19Sel {
 	c := c19Sel{Selector: rapid.SampledFrom([]string{"minindex", "minnumber", "maxvalueage", "minpriority", "minpriority"}).Draw(t, "sel")}
 	n := rapid.IntRange(0, 12).Draw(t, "n")
 	large := rapid.IntRange(0, 5).Draw(t, "large") == 0
+	capped := rapid.IntRange(0, 3).Draw(t, "capped") == 0
+	huge := c.Selector == "minpriority" && rapid.IntRange(0, 5).Draw(t, "huge") == 0
 	var sum int64
 	for i := 0; i < n; i++ {
 		cs := coinSpec{V: int64(rapid.IntRange(0, 6).Draw(t, "v")), C: int64(rapid.IntRange(0, 4).Draw(t, "c"))}
 		if large {
 			cs.V = rapid.Int64Range(0, 5000000).Draw(t, "vl")
 			cs.C = rapid.Int64Range(0, 1000).Draw(t, "cl")
+		}
+		if capped && rapid.Bool().Draw(t, "cap") {
+			cs.Cap = rapid.Int64Range(1, 1+cs.V*cs.C).Draw(t, "vacap")
+		}
+		if huge { // value-ages around 10^16..10^17: integer arithmetic is still exact, float64 no longer is
+			cs.V = rapid.Int64Range(1e10, 3e11).Draw(t, "vh")
+			cs.C = rapid.Int64Range(5e4, 3e5).Draw(t, "ch")
 		}
 		sum += cs.V
 		c.Coins = append(c.Coins, cs)
@@ -228,6 +248,17 @@ func genC19Sel(t *rapid.T) c19Sel {
 	if large {
 		c.MinChange = rapid.Int64Range(0, 100000).Draw(t, "minchangel")
 		c.MinAvg = rapid.Int64Range(0, 50000000).Draw(t, "minavgl")
+	}
+	if huge && n > 0 {
+		// the required average sits a unit or two above / at / below the true average of a prefix of the list
+		k := rapid.IntRange(1, n).Draw(t, "hk")
+		var tot int64
+		for _, cs := range c.Coins[:k] {
+			tot += cs.va()
+		}
+		c.MinAvg = tot/int64(k) + int64(rapid.IntRange(-1, 2).Draw(t, "hdelta"))
+		c.MinChange = 0
+		c.Target = rapid.Int64Range(1, sum).Draw(t, "htarget")
 	}
 	return c
 }
@@ -249,7 +280,7 @@ type c19Hist struct {
 func evalC19Hist(c c19Hist, o *Obs) error {
 	next := 0
 	mk := func(s coinSpec) *testCoin {
-		tc := &testCoin{id: next, index: uint32(next % 5), value: s.V, confs: s.C}
+		tc := &testCoin{id: next, index: uint32(next % 5), value: s.V, confs: s.C, vaCap: s.Cap}
 		tc.hash[1] = byte(next)
 		tc.hash[2] = byte(next >> 8)
 		next++
@@ -274,7 +305,7 @@ func evalC19Hist(c c19Hist, o *Obs) error {
 		var tv, tva int64
 		for _, m := range model {
 			tv += m.value
-			tva += m.value * m.confs
+			tva += m.va()
 		}
 		if cs.Num() != len(model) || int64(cs.TotalValue()) != tv || cs.TotalValueAge() != tva {
 			return fmt.Errorf("%s: Num/TotalValue/TotalValueAge = %d/%d/%d, sums over the contents are %d/%d/%d", when,
@@ -378,7 +409,11 @@ var kC19Hist = register(&Kind[c19Hist]{
 			if rapid.IntRange(0, 4).Draw(t, "big") == 0 {
 				return coinSpec{V: rapid.Int64Range(0, 2100000000000000).Draw(t, "vb"), C: rapid.Int64Range(0, 4000).Draw(t, "cb")}
 			}
-			return coinSpec{V: int64(rapid.IntRange(0, 6).Draw(t, "v")), C: int64(rapid.IntRange(0, 4).Draw(t, "c"))}
+			cs := coinSpec{V: int64(rapid.IntRange(0, 6).Draw(t, "v")), C: int64(rapid.IntRange(0, 4).Draw(t, "c"))}
+			if rapid.IntRange(0, 3).Draw(t, "cap") == 0 {
+				cs.Cap = int64(rapid.IntRange(1, 10).Draw(t, "vacap"))
+			}
+			return cs
 		}
 		for i := rapid.IntRange(0, 3).Draw(t, "ninit"); i > 0; i-- {
 			c.Initial = append(c.Initial, coin())
@@ -486,7 +521,7 @@ func TestC19(t *testing.T) {
 			"every step. SimpleCoin (the library's own Coin over an output of a bchutil.Tx): accessors, totals of a set of them and the transaction built from it. Non-trivial = selection of >=2 coins, or a removal after >=2 pushes.",
 			"min-priority is not required to find a selection whenever one exists (its documentation disclaims that), nor to be minimal")
 		// regression cases for the min-priority selector (see KNOWN_FINDINGS.txt)
-		kC19Sel.One(ev, c19Sel{Selector: "minpriority", Coins: []coinSpec{{0, 0}, {0, 0}, {1, 0}, {3, 1}}, Target: 0, MaxInputs: 1, MinChange: 4, MinAvg: 1})
+		kC19Sel.One(ev, c19Sel{Selector: "minpriority", Coins: []coinSpec{{V: 0, C: 0}, {V: 0, C: 0}, {V: 1, C: 0}, {V: 3, C: 1}}, Target: 0, MaxInputs: 1, MinChange: 4, MinAvg: 1})
 		kC19Sel.Run(t, ev, perShard(pick(20000, 10000000)))
 		kC19Hist.Run(t, ev, perShard(pick(3000, 1500000)))
 		kC19Simple.Run(t, ev, perShard(pick(1500, 300000)))
